@@ -475,6 +475,120 @@ mod kani_c19 {
         if j != i { let p = snap(&s, j); assert!(p.k == o.k && same_addrs(&p, &o) && same_name(&p, &o), "C19.result: other slots untouched"); }
     }
 
+    // ------------------------------------------------------------------------------------------ process (response matching)
+    // s := any socket with two slots (pending names are well-formed raw names: the output of start_query / copy_name);
+    // datagram := any bytes of length <= PL accepted by `accepts`; OLD := snapshot; call the real process; assert POST.
+    const PL: usize = 12 + 8 + 16;   // header + question (name <= 4) + one answer record with a compressed name and 4 octets of data
+    struct PStep { pre: [Snap; NQ], post: [Snap; NQ], payload: [u8; PL], n: usize, dport: u16 }
+    /// a stored query name is a sequence of plain labels (length 1..=63) closed by the root label, filling the vector exactly
+    fn raw_name_ok(name: &[u8]) -> bool {
+        let l = name.len();
+        if l == 0 { return false; }
+        let mut i = 0usize; let mut ok = true; let mut done = false;
+        upto6(DNS_MAX_NAME_SIZE, |_| if !done && ok {
+            if i >= l { ok = false; }
+            else { let b = name[i] as usize; if b == 0 { done = true; ok = i == l - 1; } else if b >= 64 { ok = false; } else { i += 1 + b; } }
+        });
+        ok && done
+    }
+    fn names_ok(s: &Socket) -> bool {
+        let one = |i: usize| match &s.queries[i] { Some(DnsQuery { state: State::Pending(p) }) => raw_name_ok(&p.name), _ => true };
+        one(0) && one(1)
+    }
+    fn be16(b: &[u8; PL], i: usize) -> u16 { ((b[i] as u16) << 8) | b[i + 1] as u16 }
+    /// what `process` requires of the header before it looks at any query: a response to a standard query with one question
+    fn hdr_ok(d: &PStep) -> bool { d.n >= 12 && d.payload[2] & 0x80 != 0 && (d.payload[2] >> 3) & 0x0f == 0 && be16(&d.payload, 4) == 1 }
+    fn addressed_to(d: &PStep, a: &Snap) -> bool { d.dport == a.port && be16(&d.payload, 0) == a.txid }
+    fn same_snap(a: &Snap, b: &Snap) -> bool {
+        a.k == b.k && same_name(a, b) && a.ty == b.ty && a.port == b.port && a.txid == b.txid && a.timeout_at == b.timeout_at && a.retransmit_at == b.retransmit_at
+            && a.delay == b.delay && a.idx == b.idx && a.mdns == b.mdns && same_addrs(a, b)
+    }
+    fn run_process() -> PStep {
+        let mut s = any_socket(new_slots());
+        let now = any_instant();
+        kani::assume(inv(&s, now) && names_ok(&s)); // tag: invariant
+        let mut cx = Context::kani_ctx_addr(now, kani::any(), None);
+        let payload: [u8; PL] = kani::any();
+        let n: usize = kani::any();
+        kani::assume(n <= PL); // tag: range
+        let ip = IpRepr::Ipv4(Ipv4Repr { src_addr: any_v4(), dst_addr: any_v4(), next_header: IpProtocol::Udp, payload_len: n + 8, hop_limit: kani::any() });
+        let udp = UdpRepr { src_port: kani::any(), dst_port: kani::any() };
+        kani::assume(s.accepts(&ip, &udp)); // tag: api-precondition (process is only called on accepted datagrams; c19_accepts)
+        let pre = [snap(&s, 0), snap(&s, 1)];
+        s.process(&mut cx, &ip, &udp, &payload[..n]);
+        let post = [snap(&s, 0), snap(&s, 1)];
+        PStep { pre, post, payload, n, dport: udp.dst_port }
+    }
+
+    /// a datagram that is not a response to one standard question, or is not addressed to the query's own port with its
+    /// transaction id, leaves the query exactly as it was; free, completed and failed slots are never touched
+    #[kani::proof] #[kani::unwind(40)]
+    fn c19_process_ignores_foreign() {
+        let d = run_process();
+        let i = any_index();
+        let (a, b) = (&d.pre[i], &d.post[i]);
+        kani::cover!(a.k == K::Pending && hdr_ok(&d) && addressed_to(&d, a), "a response addressed to a pending query");
+        kani::cover!(a.k == K::Pending && b.k == K::Completed, "a query can be completed");
+        if a.k != K::Pending { assert!(same_snap(a, b), "C19.process: only pending queries are touched"); }
+        else if !hdr_ok(&d) || !addressed_to(&d, a) { assert!(same_snap(a, b), "C19.process: a datagram with another port / transaction id / not a single-question response leaves the query alone"); }
+    }
+
+    /// a query is completed (or failed) by a response only if that response is addressed to it and, for completion, repeats its
+    /// question type and - where the question name is written without compression - its name octet for octet; a completed
+    /// query holds at least one address and every address it holds is the data of an A record of that response
+    #[kani::proof] #[kani::unwind(40)]
+    fn c19_process_completes_only_on_match() {
+        let d = run_process();
+        let i = any_index();
+        let (a, b) = (&d.pre[i], &d.post[i]);
+        kani::assume(a.k == K::Pending); // tag: case-split
+        kani::cover!(b.k == K::Completed && a.name_len == 3, "completion of a query for a one-letter name");
+        kani::cover!(b.k == K::Failure, "failure by a response");
+        if b.k != K::Pending { assert!(hdr_ok(&d) && addressed_to(&d, a), "C19.process: only a response with the query's port and transaction id ends it"); }
+        if b.k == K::Completed {
+            let q = Question::parse(&d.payload[12..d.n]);
+            assert!(q.is_ok(), "C19.process: the completing response carries a well-formed question");
+            let (rest, q) = q.unwrap();
+            assert!(u16::from(q.type_) == a.ty, "C19.process: ... of the query's type");
+            if raw_name_ok(q.name) {
+                let mut same = q.name.len() == a.name_len;
+                upto6(DNS_MAX_NAME_SIZE, |j| if j < q.name.len() && j < a.name_len { same &= q.name[j] == a.name[j]; });
+                assert!(same, "C19.process: ... and of the query's name");
+            }
+            assert!(be16(&d.payload, 6) >= 1 && b.addrs[0].is_some(), "C19.process: a completed query holds an address taken from an answer record");
+            // every stored address is the data of an A record among the (at most two, at this length) answer records
+            let r1 = Record::parse(rest);
+            assert!(r1.is_ok());
+            let (rest1, r1) = r1.unwrap();
+            let a1 = match r1.data { RecordData::A(x) => Some(x.to_bits()), _ => None };
+            let a2 = if be16(&d.payload, 6) >= 2 { match Record::parse(rest1) { Ok((_, r2)) => match r2.data { RecordData::A(x) => Some(x.to_bits()), _ => None }, Err(_) => None } } else { None };
+            upto6(DNS_MAX_RESULT_COUNT, |j| if let Some(x) = obits(b.addrs[j]) { assert!(Some(x) == a1 || Some(x) == a2, "C19.process: every address comes from an A record of the response"); });
+        }
+    }
+
+    /// a response whose question names another host (uncompressed, differing from the query's name) or another type never ends
+    /// the query successfully and leaves it pending unless it is an NXDomain
+    #[kani::proof] #[kani::unwind(40)]
+    fn c19_process_question_mismatch() {
+        let d = run_process();
+        let i = any_index();
+        let (a, b) = (&d.pre[i], &d.post[i]);
+        kani::assume(a.k == K::Pending && hdr_ok(&d) && addressed_to(&d, a)); // tag: case-split
+        kani::assume(i == 0 || !(d.pre[0].k == K::Pending && addressed_to(&d, &d.pre[0]))); // tag: case-split  (the first addressed query is the one examined)
+        let nxdomain = d.payload[3] & 0x0f == 3;
+        match Question::parse(&d.payload[12..d.n]) {
+            Err(_) => { kani::cover!(true, "malformed question"); if !nxdomain { assert!(same_snap(a, b), "C19.process: malformed question is ignored"); } }
+            Ok((_, q)) => {
+                let mut differs = q.name.len() != a.name_len;
+                upto6(DNS_MAX_NAME_SIZE, |j| if j < q.name.len() && j < a.name_len { differs |= q.name[j] != a.name[j]; });
+                kani::cover!(raw_name_ok(q.name) && differs, "question for another name");
+                if !nxdomain && (u16::from(q.type_) != a.ty || (raw_name_ok(q.name) && differs)) {
+                    assert!(same_snap(a, b), "C19.process: a response to another question leaves the query alone");
+                }
+            }
+        }
+    }
+
     // ------------------------------------------------------------------------------------------ C13 (DNS part)
     /// poll_at is sufficient (nothing is transmitted and no query changes before the reported deadline) and non-spinning
     /// (after a dispatch that neither sent nor changed anything the deadline is strictly later than now, or absent)
